@@ -185,6 +185,15 @@ fn leaf_values(id: u64, n: usize) -> Vec<u64> {
 // operations
 // ---------------------------------------------------------------------------------------------
 
+/// A mutation of an adaptor after its construction (replayed right after the constructor).
+#[derive(Clone, Debug)]
+enum Post {
+    /// `TensorRename::set_names`
+    SetNames(Vec<&'static str>),
+    /// `std::mem::swap(adaptor.source_ref_mut(), &mut <the view below on the stack>)`
+    Swap,
+}
+
 #[derive(Clone, Debug)]
 enum Op {
     Leaf { id: u64, shape: Vec<(&'static str, usize)>, slot: Option<usize> },
@@ -193,8 +202,8 @@ enum Op {
     Range { named: Vec<(&'static str, usize, usize)>, strict: bool, mask: bool },
     Index { provided: Vec<(&'static str, usize)> },
     Expand { extra: Vec<(usize, &'static str)> },
-    Rename { names: Vec<&'static str> },
-    Reverse { names: Vec<&'static str> },
+    Rename { names: Vec<&'static str>, posts: Vec<Post> },
+    Reverse { names: Vec<&'static str>, posts: Vec<Post> },
     Access { names: Vec<&'static str> },
     Transpose { names: Vec<&'static str> },
     Stack { n: usize, along: (usize, &'static str) },
@@ -245,8 +254,8 @@ fn parse_op(toks: &[&str]) -> Option<Op> {
         ["mask", spec, rest @ ..] => Op::Range { named: parse_triples(spec), strict: opt_arg("kind", rest) == Some("strict"), mask: true },
         ["index", spec, ..] => Op::Index { provided: parse_shape(spec) },
         ["expand", spec, ..] => Op::Expand { extra: parse_pos_names(spec) },
-        ["rename", names, ..] => Op::Rename { names: parse_names(names) },
-        ["reverse", names, ..] => Op::Reverse { names: parse_names(names) },
+        ["rename", names, ..] => Op::Rename { names: parse_names(names), posts: vec![] },
+        ["reverse", names, ..] => Op::Reverse { names: parse_names(names), posts: vec![] },
         ["access", names, ..] => Op::Access { names: parse_names(names) },
         ["transpose", names, ..] => Op::Transpose { names: parse_names(names) },
         ["stack", n, along, ..] => {
@@ -545,9 +554,79 @@ fn chain_op(sources: Vec<DV>, along: &'static str, via: &str) -> Result<DV, Rej>
     }
 }
 
-fn names_op<const D: usize>(src: Dyn<D>, kind: &str, names: &[&'static str], via: &str) -> Result<Dyn<D>, Rej> {
+/// a `Box<dyn TensorMut<u64, D>>` as an element of the stack
+trait Slot: Sized {
+    fn from_dv(dv: DV) -> Result<Self, DV>;
+    fn into_dv(self) -> DV;
+}
+macro_rules! slot_impl {
+    ($D:literal, $V:ident) => {
+        impl Slot for Dyn<$D> {
+            fn from_dv(dv: DV) -> Result<Self, DV> {
+                match dv {
+                    DV::$V(x) => Ok(x),
+                    other => Err(other),
+                }
+            }
+            fn into_dv(self) -> DV {
+                DV::$V(self)
+            }
+        }
+    };
+}
+slot_impl!(0, D0);
+slot_impl!(1, D1);
+slot_impl!(2, D2);
+slot_impl!(3, D3);
+slot_impl!(4, D4);
+slot_impl!(5, D5);
+slot_impl!(6, D6);
+
+thread_local! {
+    /// outcome of the last `set_names` executed, and the names of the last TensorRename built
+    static LAST_SET_NAMES: std::cell::Cell<Option<Result<(), PanicKind>>> = const { std::cell::Cell::new(None) };
+    static LAST_NAMES: std::cell::RefCell<String> = const { std::cell::RefCell::new(String::new()) };
+}
+
+/// swaps the source behind `source_ref_mut` with the view on top of the stack
+fn swap_source<const D: usize>(source: &mut Dyn<D>, stack: &mut Vec<DV>) -> Result<(), Rej>
+where
+    Dyn<D>: Slot,
+{
+    let other = stack.pop().ok_or(Rej::Skip)?;
+    match <Dyn<D> as Slot>::from_dv(other) {
+        Ok(mut other) => {
+            std::mem::swap(source, &mut other);
+            stack.push(other.into_dv());
+            Ok(())
+        }
+        Err(other) => {
+            stack.push(other);
+            Err(Rej::Skip)
+        }
+    }
+}
+
+fn names_op<const D: usize>(
+    src: Dyn<D>,
+    kind: &str,
+    names: &[&'static str],
+    posts: &[Post],
+    stack: &mut Vec<DV>,
+    via: &str,
+) -> Result<Dyn<D>, Rej>
+where
+    Dyn<D>: Slot,
+{
     if kind == "reverse" {
-        return Ok(wrap(Box::new(TensorReverse::from(src, names)), via));
+        let mut v = TensorReverse::from(src, names);
+        for post in posts {
+            match post {
+                Post::Swap => swap_source(v.source_ref_mut(), stack)?,
+                Post::SetNames(_) => return Err(Rej::Skip),
+            }
+        }
+        return Ok(wrap(Box::new(v), via));
     }
     if names.len() != D {
         return Err(Rej::Skip);
@@ -555,7 +634,25 @@ fn names_op<const D: usize>(src: Dyn<D>, kind: &str, names: &[&'static str], via
     let arr: [&'static str; D] = names_array(names);
     let fallible = via.starts_with("try_from");
     Ok(match kind {
-        "rename" => wrap(Box::new(TensorRename::from(src, arr)), via),
+        "rename" => {
+            let mut v = TensorRename::from(src, arr);
+            for post in posts {
+                match post {
+                    Post::Swap => swap_source(v.source_ref_mut(), stack)?,
+                    Post::SetNames(n) => {
+                        if n.len() != D {
+                            return Err(Rej::Skip);
+                        }
+                        let new_names: [&'static str; D] = names_array(n);
+                        // a refused call must leave the very same adaptor usable and unchanged
+                        let r = catch(|| v.set_names(new_names));
+                        LAST_SET_NAMES.with(|c| c.set(Some(r)));
+                    }
+                }
+            }
+            LAST_NAMES.with(|c| *c.borrow_mut() = show_names(v.get_names()));
+            wrap(Box::new(v), via)
+        }
         "access" => {
             if fallible {
                 match TensorAccess::try_from(src, arr) {
@@ -715,11 +812,12 @@ fn apply_op(stack: &mut Vec<DV>, op: &mut Op, arena: &mut Vec<Leaf>, via: &str) 
             Ok(())
         }
         Op::Rename { .. } | Op::Reverse { .. } | Op::Access { .. } | Op::Transpose { .. } => {
-            let (kind, names) = match op {
-                Op::Rename { names } => ("rename", names),
-                Op::Reverse { names } => ("reverse", names),
-                Op::Access { names } => ("access", names),
-                Op::Transpose { names } => ("transpose", names),
+            let no_posts: Vec<Post> = vec![];
+            let (kind, names, posts) = match op {
+                Op::Rename { names, posts } => ("rename", names, &*posts),
+                Op::Reverse { names, posts } => ("reverse", names, &*posts),
+                Op::Access { names } => ("access", names, &no_posts),
+                Op::Transpose { names } => ("transpose", names, &no_posts),
                 _ => unreachable!(),
             };
             let top = stack.pop().ok_or(Rej::Skip)?;
@@ -727,7 +825,7 @@ fn apply_op(stack: &mut Vec<DV>, op: &mut Op, arena: &mut Vec<Leaf>, via: &str) 
                 stack.push(top);
                 return Err(Rej::Skip);
             }
-            let v = dv_same!(top, s => names_op(s, kind, names, via))?;
+            let v = dv_same!(top, s => names_op(s, kind, names, posts, stack, via))?;
             stack.push(v);
             Ok(())
         }
@@ -1010,6 +1108,77 @@ impl Runner {
         }
     }
 
+    /// A mutation of the adaptor on top of the stack (it must be the TensorRename / TensorReverse
+    /// the last accepted constructor built): the adaptor is built again, concretely typed, from
+    /// the recipe, all its earlier mutations are repeated and the new one is executed on it.
+    fn mutate(&mut self, post: Post) -> String {
+        let d = match self.stack_mut().last() {
+            Some(top) => top.d(),
+            None => return "skip".into(),
+        };
+        let second_d = {
+            let st = self.stack_mut();
+            if st.len() >= 2 { Some(st[st.len() - 2].d()) } else { None }
+        };
+        let applicable = match (self.recipe.last(), &post) {
+            (Some((Op::Rename { .. }, _)), Post::SetNames(n)) => n.len() == d,
+            (Some((Op::Rename { .. }, _)), Post::Swap) | (Some((Op::Reverse { .. }, _)), Post::Swap) => second_d == Some(d),
+            _ => false,
+        };
+        if !applicable {
+            return "skip".into();
+        }
+        let (old_op, via) = self.recipe.pop().unwrap();
+        let mut op = old_op.clone();
+        match &mut op {
+            Op::Rename { posts, .. } | Op::Reverse { posts, .. } => posts.push(post.clone()),
+            _ => unreachable!(),
+        }
+        self.rebuild();
+        let mut stack = std::mem::take(self.stack_mut());
+        LAST_SET_NAMES.with(|c| c.set(None));
+        let r = catch(|| apply_op(&mut stack, &mut op, &mut self.arena, &via));
+        match r {
+            Ok(Ok(())) => {
+                let shape = show_shape(&stack.last().unwrap().shape());
+                self.recipe.push((op, via));
+                self.stack = Some(stack);
+                match post {
+                    Post::Swap => format!("ok shape={}", shape),
+                    Post::SetNames(_) => match LAST_SET_NAMES.with(|c| c.get()) {
+                        Some(Ok(())) => format!("ok shape={}", shape),
+                        Some(Err(PanicKind::Explicit)) => "reject".into(),
+                        Some(Err(k)) => panic_str(k),
+                        None => "set-names-not-executed".into(),
+                    },
+                }
+            }
+            other => {
+                drop(stack);
+                self.recipe.push((old_op, via));
+                self.stack = None;
+                match other {
+                    Ok(Err(rej)) => rej_str(&rej),
+                    Err(k) => panic_str(k),
+                    _ => unreachable!(),
+                }
+            }
+        }
+    }
+
+    fn get_names(&mut self) -> String {
+        match self.recipe.last() {
+            Some((Op::Rename { .. }, _)) => {
+                // (re)build so that the names recorded are those of the adaptor now on top
+                self.rebuild();
+                format!("names={}", LAST_NAMES.with(|c| c.borrow().clone()))
+            }
+            _ => {
+                if self.stack_mut().is_empty() { "skip".into() } else { "skip".into() }
+            }
+        }
+    }
+
     fn set(&mut self, idx: &[usize], via: &str) -> String {
         {
             let stack = self.stack_mut();
@@ -1095,6 +1264,9 @@ impl Runner {
                 let idx = parse_usizes(idx_s);
                 self.set(&idx, via)
             }
+            ["set_names", names, ..] => self.mutate(Post::SetNames(parse_names(names))),
+            ["swap_source", ..] => self.mutate(Post::Swap),
+            ["get_names", ..] => self.get_names(),
             ["layout", ..] => match self.stack_mut().last() {
                 Some(top) => match catch(|| dv_each!(top, v => show_layout(&v.data_layout()))) {
                     Ok(s) => s,
@@ -1271,10 +1443,11 @@ impl Script {
     }
 }
 
-const STATIC_KEYS: [&str; 11] = [
+const STATIC_KEYS: [&str; 13] = [
     "stack_tuple2_refs", "stack_tuple3_mixed", "stack_tuple4_owned", "stack_array_boxed_ref",
     "chain_tuple2_mut", "chain_tuple3_refs", "chain_tuple4_owned", "chain_array3_refs",
-    "matrix_backed", "tensor_methods", "matrix_of_tensor_view",
+    "matrix_backed", "tensor_methods", "matrix_of_tensor_view", "rename_setters",
+    "reverse_swap_source",
 ];
 
 fn static_case(key: &str) -> Vec<(String, String)> {
@@ -1433,6 +1606,65 @@ fn static_case(key: &str) -> Vec<(String, String)> {
             s.built("transpose y,x", &tr);
             s.probe(&tr);
             s.memorder(&tr);
+        }
+        "rename_setters" => {
+            // the mutators of an existing adaptor: TensorRename::set_names (directly and through
+            // TensorView::source_ref_mut), source_ref_mut of TensorRename / TensorReverse
+            let other = s.leaf(2, [("c", 3), ("d", 1)]);
+            let t = s.leaf(1, [("a", 2), ("b", 3)]);
+            let mut r = TensorRename::from(t, ["x", "y"]);
+            s.built("rename x,y", &r);
+            s.rec("get_names via=static".into(), format!("names={}", show_names(r.get_names())));
+            let refused = catch(|| r.set_names(["p", "p"]));
+            s.rec("set_names p,p via=static".into(), match refused {
+                Ok(()) => format!("ok shape={}", show_shape(&r.view_shape())),
+                Err(PanicKind::Explicit) => "reject".into(),
+                Err(k) => panic_str(k),
+            });
+            s.rec("get_names via=static".into(), format!("names={}", show_names(r.get_names())));
+            s.probe(&r);
+            let accepted = catch(|| r.set_names(["y", "x"]));
+            s.rec("set_names y,x via=static".into(), match accepted {
+                Ok(()) => format!("ok shape={}", show_shape(&r.view_shape())),
+                Err(PanicKind::Explicit) => "reject".into(),
+                Err(k) => panic_str(k),
+            });
+            s.probe(&r);
+            s.probe_mut(&mut r);
+            // through a TensorView
+            let mut view = TensorView::from(r);
+            let refused = catch(|| view.source_ref_mut().set_names(["y", "y"]));
+            s.rec("set_names y,y via=static_view".into(), match refused {
+                Ok(()) => format!("ok shape={}", show_shape(&view.shape())),
+                Err(PanicKind::Explicit) => "reject".into(),
+                Err(k) => panic_str(k),
+            });
+            s.rec("shape via=static".into(), format!("shape={}", show_shape(&view.shape())));
+            let accepted = catch(|| view.source_ref_mut().set_names(["u", "v"]));
+            s.rec("set_names u,v via=static_view".into(), match accepted {
+                Ok(()) => format!("ok shape={}", show_shape(&view.shape())),
+                Err(PanicKind::Explicit) => "reject".into(),
+                Err(k) => panic_str(k),
+            });
+            let mut r = view.source();
+            // the source replaced by a tensor of another shape
+            let mut other = other;
+            std::mem::swap(r.source_ref_mut(), &mut other);
+            s.rec("swap_source via=static".into(), format!("ok shape={}", show_shape(&r.view_shape())));
+            s.probe(&r);
+            s.probe_mut(&mut r);
+        }
+        "reverse_swap_source" => {
+            let mut other = s.leaf(2, [("c", 3), ("d", 2)]);
+            let t = s.leaf(1, [("a", 2), ("b", 3)]);
+            let mut rev = TensorReverse::from(t, &["b"]);
+            s.built("reverse b", &rev);
+            s.probe(&rev);
+            // the flags are kept by position: the second dimension of the new source is reversed
+            std::mem::swap(rev.source_ref_mut(), &mut other);
+            s.rec("swap_source via=static".into(), format!("ok shape={}", show_shape(&rev.view_shape())));
+            s.probe(&rev);
+            s.probe_mut(&mut rev);
         }
         other => panic!("unknown static case {}", other),
     }
